@@ -16,6 +16,8 @@
 package quickfix
 
 import (
+	"bytes"
+
 	"github.com/quickfixgo/quickfix/datadictionary"
 )
 
@@ -367,6 +369,14 @@ func checkFieldNotDefined(settings ValidatorSettings, field Tag) bool {
 	return !fail
 }
 
+func isMultipleValueType(fieldType string) bool {
+	switch fieldType {
+	case "MULTIPLESTRINGVALUE", "MULTIPLEVALUESTRING", "MULTIPLECHARVALUE":
+		return true
+	}
+	return false
+}
+
 func validateField(d *datadictionary.DataDictionary,
 	settings ValidatorSettings,
 	_ datadictionary.TagSet,
@@ -388,7 +398,15 @@ func validateField(d *datadictionary.DataDictionary,
 	allowedValues := d.FieldTypeByTag[int(field.tag)].Enums
 	if len(allowedValues) != 0 {
 		if _, validValue := allowedValues[string(field.value)]; !validValue {
-			return ValueIsIncorrect(field.tag)
+			if !isMultipleValueType(fieldType.Type) {
+				return ValueIsIncorrect(field.tag)
+			}
+			// Multiple value types carry space separated values, each of which must be allowed.
+			for _, value := range bytes.Split(field.value, []byte{' '}) {
+				if _, validValue := allowedValues[string(value)]; !validValue {
+					return ValueIsIncorrect(field.tag)
+				}
+			}
 		}
 	}
 
